@@ -467,6 +467,40 @@ def weighted_strings(h: Harness):
                 elif not wsgrammar.HANDLER.validate(s):
                     h.fail("WeightedStringHandler.validate", "validate-rejects-generated-value",
                            f"WeightedStringHandler.validate rejects {s!r}, a value its own generate() produced ({name})", [name, trial, s])
+    # every draw at and around every boundary of the accumulated weights (the draws a genotype-driven source makes as readily as any
+    # other: gene 0, a multiple of the row total), rows whose FIRST letters have probability 0 included
+    import numpy as np
+    from core import ScriptedSource
+    from geneticengine.grammar.metahandlers.strings import WeightedStringHandler
+    m2 = np.array([[0.0, 0.5, 0.25, 0.25], [0.0, 0.0, 1.0, 0.0], [0.25, 0.0, 0.0, 0.75], [0.5, 0.5, 0.0, 0.0], [0.125, 0.125, 0.25, 0.5]])
+    h2 = WeightedStringHandler(m2, letters)
+    bounds = []
+    for row in m2:
+        acc, t = [], 0.0
+        for x in row:
+            t += float(x)
+            acc.append(int(t * 100000))
+        bounds.append(sorted({d % acc[-1] for a in acc for d in (a - 1, a, a + 1)} | {0, acc[-1] - 1}))
+    scripts = [[bs[min(k, len(bs) - 1)] for bs in bounds] for k in range(max(len(bs) for bs in bounds))]
+    scripts += [[rng.choice(bs) for bs in bounds] for _ in range(h.n(40, 400))]
+    for script in scripts:
+        try:
+            s2 = h2.generate(ScriptedSource(script), g, str, None, {})
+        except Exception as e:  # noqa: BLE001
+            h.fail("WeightedStringHandler.generate", "raises", f"generate raised {type(e).__name__}: {e} on draws {script}", [script])
+            continue
+        h.count("weighted-strings:boundary-draws")
+        h.seen(f"ws:boundary:{script}", nontrivial=True)
+        bad = None
+        if not isinstance(s2, str) or len(s2) != len(m2) or any(ch not in letters for ch in s2):
+            bad = f"{s2!r} is not a string of {len(m2)} letters over {letters}"
+        else:
+            for pos, ch in enumerate(s2):
+                if m2[pos][letters.index(ch)] == 0:
+                    bad = f"{s2!r} has letter {ch!r} at position {pos}, where its probability is 0 (row {m2[pos].tolist()}, draw {script[pos]})"
+                    break
+        if bad:
+            h.fail("WeightedStringHandler.generate", "refinement-violated", f"WeightedStringHandler field, draws {script}: {bad}", [script, repr(s2)])
     wsgrammar.MATRIX[:] = matrix
 
 
@@ -509,8 +543,48 @@ def handed_down_values(h: Harness):
                     break
 
 
+def string_operators(h: Harness):
+    """the refinement's OWN variation operators (the tree representation calls them whenever a refined string field is picked): for every
+    bound pair -- equal bounds included --, every valid current string and every sequence of draws, what StringSizeBetween.mutate /
+    .crossover return is still inside the refinement (judged by the Lean predicate) and accepted by the handler's validate()"""
+    import itertools
+    import types
+    from core import ScriptedSource
+    b = host()
+    for al in (["a"], ["a", "b"], ["x", "y", "z"]):
+        for lo in range(0, 4):
+            for hi in range(lo, 4):
+                mh = ("strSize", lo, hi, al)
+                pymh = StringSizeBetween(lo, hi, al)
+                currents = ["".join(t) for n in range(lo, hi + 1) for t in itertools.product(al[:2], repeat=n)]
+                for cur in currents:
+                    for script in itertools.product(range(3), range(max(1, len(cur) + 1)), range(len(al))):
+                        for opname in ("mutate", "crossover"):
+                            if opname == "crossover" and script[0] > 1:
+                                continue
+                            try:
+                                if opname == "mutate":
+                                    v = pymh.mutate(ScriptedSource(list(script)), b.grammar, None, 2, str, cur)
+                                else:
+                                    mates = [types.SimpleNamespace(s=m) for m in currents[:: max(1, len(currents) // 4)]]
+                                    v = pymh.crossover(ScriptedSource([script[1], script[0] + script[2], script[2]]), b.grammar, mates, "s", str, cur)
+                            except Exception as e:  # noqa: BLE001   (an operator may give up; C02 speaks about the values it returns)
+                                h.count(f"StringSizeBetween.{opname}:raises:{type(e).__name__}")
+                                continue
+                            h.count(f"StringSizeBetween.{opname}:values")
+                            site = f"StringSizeBetween.{opname}"
+                            c = gram.canon(v, b) if isinstance(v, str) else ["v", repr(v)]
+                            h.holds(site, "operator-value-violates-refinement", ["prop_sat", gram.mh_sx(mh), [], c],
+                                    f"StringSizeBetween({lo}, {hi}, {al}).{opname} of {cur!r} with draws {list(script)} returned {v!r}, which violates "
+                                    f"{lo} <= len <= {hi} over the alphabet", [lo, hi, al, cur, list(script), opname], nontrivial=v != cur)
+                            if isinstance(v, str) and lo <= len(v) <= hi and not pymh.validate(v):
+                                h.fail(f"StringSizeBetween.validate", "validate-rejects-generated-value",
+                                       f"StringSizeBetween({lo}, {hi}, {al}).validate rejects {v!r}, returned by its own {opname}", [lo, hi, al, cur, list(script)])
+
+
 def run(h: Harness):
     boxes(h)
+    string_operators(h)
     float_lists(h)
     long_derivations(h)
     weighted_strings(h)
